@@ -564,7 +564,7 @@ def step3 (st : DState) (toks : List String) : DState × String :=
            | some raw =>
              (match hx raw with
               | some bytes =>
-                let dgram := match Krpc.fromBytes bytes with
+                let dgram := match Krpc.recvDatagram bytes with
                   | .ok (some m) => some (m, src)
                   | _ => none
                 let (st, a) := nodeStep st a dgram
@@ -577,7 +577,7 @@ def step3 (st : DState) (toks : List String) : DState × String :=
                | _, _ => none
              match tid, (kvOf rest "msg").bind hx with
              | some tid, some bytes =>
-               let dgram := match Krpc.fromBytes bytes with
+               let dgram := match Krpc.recvDatagram bytes with
                  | .ok (some m) => some ({ m with tid := UInt32.ofNat tid }, src)
                  | _ => none
                let (st, a) := nodeStep st a dgram
